@@ -21,6 +21,7 @@ func init() {
 		Rule: "E-twin + API probes: directed histories over {file,dir} x ending {delete, rename away, rename within parent, overwrite-by-rename, recreate} x parent {unwatched, watched same spelling, other spelling, via symlink, added after the unlink} x Add argument {direct, via symlink} x 0-3 descriptors held open and released in PRNG order, " +
 			"then further operations (new file under the old name, changes to the moved file) and a re-Add. After the barrier that follows the ending: the path must be gone from WatchList, Remove must give ErrNonExistentWatch, no further event may come from that watch, re-Add must succeed and report the new file; " +
 			"with descriptors held the watch must survive the unlink (Chmod reported) until the last close and then end with exactly one Remove for the file overall (semantic parent rule: suppressed only if a watch on the directory that holds the entry reported it). " +
+			"Plus histories with a restricted operation set (also without Remove, so only IN_IGNORED announces the end) and a probe that calls WatchList at the very moment the Remove/Rename of the watched path is received. " +
 			"distinct_nontrivial = distinct parameter combinations whose history delivered >=1 event",
 		Assumptions: []string{"inode reading of 'the watched path is deleted/renamed' (DESIGN §4 preamble)", "kernel shadow = ground truth", "every Add/Remove is preceded by a barrier (strict schedule)"},
 		Batches:     func(t string) int { return map[string]int{"quick": 12, "thorough": 48}[t] },
